@@ -37,6 +37,22 @@ CLAIMED = {
             "the four real gap callables proved non-increasing / non-negative / zero-when-degenerate / equal to their definitions on abstract nested boxes "
             "(compositional), plus end-to-end on the whole n=3 lattice.",
             "Trusts: z3, symx carrier, np.linalg.norm model, SQ/SQRT as uninterpreted functions with instantiated monotonicity axioms."),
+    "C09": ("§C09", "From every listed reachable state (all at n=3) with free stale bounds, one real ICG_Gym.step on a symbolic hidden game of the assumed class: z3 decides "
+            "knowledge = minimal ∪ chosen with hidden values, mask, normalised observation, reward = -gap of a fresh game, reward<=0, info, done (budget None / symbolic), "
+            "and reset semantics; environments built directly and through ModelInstance.get_env().",
+            "Trusts: z3, symx carrier, generator stub indexed by draw counter, norm model / UF for l2."),
+    "C15": ("§C15", "Real normalize_game / denormalize_game on a symbolic superadditive value table and on a graph game with symbolic weights, both paths (surplus zero / non-zero): "
+            "singletons 0, values in [0,1], grand 1 or all 0, superadditivity kept, graph == tabulated, round trip; exact reals, n<=4 (5 thorough).",
+            "Trusts: z3, symx carrier (fraction representation keeps the queries linear). Float-rounding behaviour (C15-fp in DESIGN) is NOT decided here."),
+    "C16": ("§C16", "Real ICG_Gym_Linear over a real ICG_Gym on a symbolic hidden game: for every listed knowledge set and every size, with np.random.choice explored over every "
+            "candidate, z3 / term identity decide mask, single new known coalition of that size, info, reward/done pass-through and per-size observation sums.",
+            "Trusts: z3, symx carrier, np.bincount model, exhaustive-choice stub for np.random.choice."),
+    "C17": ("§C17", "One public operation from every enumerated flag pattern (all for n<=3 quick: 128+16, thorough 256) with all stored numbers and operands free: post-table equals "
+            "a reference map; getters never leak unknown values; copy independence; negation involution; addition. Mostly term identity, solver for the rest.",
+            "Trusts: symx carrier, harness reference map written from the property text."),
+    "C18": ("§C18", "Loop-free coalition operators decided for ALL id pairs below 2^16 at once (bit-vector queries); looping operations and the id-array implementations explored "
+            "with one solver-pruned path per coalition for n<=6 (8) against set-theoretic references; predicates on symbolic games: returned verdict <=> textbook formula with the documented tolerance.",
+            "Trusts: z3 (QF_BV, LRA), symx carrier, np.isclose model."),
 }
 
 NOT_YET = {}
